@@ -126,6 +126,10 @@ type Exec struct {
 	ifaceRecv string
 	deferred []*deferred
 	inDefer  bool // executing deferred calls at the function's exit
+	// identifiers of loop contracts that were renamed in the code, recovered by aligning a contract loop's header with the
+	// header of the loop it was bound to by position (for _, e := range v  ~  for _, element := range elementIds)
+	loopRename map[string]string
+	loopAlias  map[string]Term // a local of the contract that named the ranged-over collection, now written in place
 	preArgs  []Term
 	seenStack []Term
 	seenFinal Term
